@@ -41,7 +41,7 @@ func c06Jobs(tier string) []string {
 		}
 		jobs = append(jobs, "udplen:"+fam, "echo:"+fam)
 	}
-	jobs = append(jobs, "eth2", "ping")
+	jobs = append(jobs, "eth2", "ping", "sendto")
 	for i := 0; i < 4; i++ {
 		jobs = append(jobs, fmt.Sprintf("routes:%d/4", i))
 	}
@@ -148,6 +148,16 @@ func c06Run(job, tier string, deadline time.Time) *engine.Result {
 			}
 		}
 		r.Sample(map[string]interface{}{"job": job, "what": "gateway 10.9.9.1 on NIC 1 (MAC ..a1) and on NIC 2 (MAC ..b2); datagrams routed through each in both orders, with and without the gateway announcing itself on the other link first"})
+	case "sendto":
+		for _, v6 := range []bool{false, true} {
+			for _, m := range c06SendTo(v6) {
+				report("sendto:"+keyOf(fmt.Errorf("%s", m[strings.Index(m, ": ")+2:])), m, map[string]interface{}{"job": job})
+			}
+			r.Execs += 20
+			r.Transitions += 20
+			r.Nontrivial += 20
+		}
+		r.Sample(map[string]interface{}{"job": job, "what": "UDP socket states {unbound, bound, connected, bound+connected} x 5 explicit / implicit destinations x IPv4/IPv6: destination and source of the datagram on the wire"})
 	case "ping":
 		for _, v6 := range []bool{false, true} {
 			for _, l := range []int{0, 1, 7, 8, 33, 1000} {
